@@ -17,8 +17,12 @@
 (*                     never a dead member;                                *)
 (*   C03_Pass          between two wraps with unchanged membership every   *)
 (*                     live peer is probed exactly once;                   *)
-(*   C03_TwoPass       whatever the churn, no live peer goes unprobed for  *)
-(*                     two complete passes.                                *)
+(*   C03_Steady        a peer that is live during a WHOLE pass is probed in *)
+(*                     it, whatever happens to the others;                 *)
+(*   C03_TwoPass       whatever the churn, no peer goes unprobed for two   *)
+(*                     complete passes during which it was live throughout *)
+(*                     (a peer that was dead when the cursor came by and   *)
+(*                     alive again afterwards was rightly skipped).        *)
 (* The same three clauses are judged on the ProbePick / Reap lines of the  *)
 (* simulation traces (TraceCluster).                                       *)
 (***************************************************************************)
@@ -35,9 +39,10 @@ VARIABLES order,     \* sequence of [name, live]
           full,      \* the current pass began with a wrap
           missed,    \* name -> complete passes without a probe
           churn,
+          flap,      \* peers whose liveness or presence changed since the last wrap
           last,      \* last probed target ("" = none yet)
           wrapNow    \* the last tick passed the end of the list
-pvars == <<order, idx, picks, stable, full, missed, churn, last, wrapNow>>
+pvars == <<order, idx, picks, stable, full, missed, churn, flap, last, wrapNow>>
 
 Names(o) == {o[i].name : i \in DOMAIN o}
 Live(o) == {o[i].name : i \in {j \in DOMAIN o : o[j].live}} \ {Self}
@@ -45,7 +50,7 @@ Perms(S) == {f \in [1..Cardinality(S) -> S] : \A i, j \in DOMAIN f : f[i] = f[j]
 
 Init == /\ order \in {[i \in 1..(Cardinality(Peers) + 1) |-> [name |-> p[i], live |-> TRUE]] : p \in Perms(Peers \cup {Self})}
         /\ idx = 0 /\ picks = [n \in Peers |-> 0] /\ stable = TRUE /\ full = FALSE
-        /\ missed = [n \in Peers |-> 0] /\ churn = 0 /\ last = "" /\ wrapNow = FALSE
+        /\ missed = [n \in Peers |-> 0] /\ churn = 0 /\ flap = {} /\ last = "" /\ wrapNow = FALSE
 
 \* resetNodes: drop the dead (all of them are aged out here), shuffle the rest in any order
 Wrapped(o) == LET keep == {o[i] : i \in {j \in DOMAIN o : o[j].live \/ o[j].name = Self}} IN
@@ -68,18 +73,18 @@ Tick ==
         liveNow == Live(r[4]) IN
     /\ order' = r[4] /\ idx' = r[2] /\ last' = tgt /\ wrapNow' = wr
     /\ IF wr
-       THEN /\ missed' = [n \in Peers |-> IF n \in liveNow /\ full /\ picks[n] = 0 THEN missed[n] + 1
+       THEN /\ missed' = [n \in Peers |-> IF n \in liveNow /\ full /\ n \notin flap /\ picks[n] = 0 THEN missed[n] + 1
                                           ELSE IF n \in liveNow /\ full THEN 0 ELSE missed[n]]
             /\ picks' = [n \in Peers |-> IF n = tgt THEN 1 ELSE 0]
-            /\ stable' = TRUE /\ full' = TRUE
+            /\ stable' = TRUE /\ full' = TRUE /\ flap' = {}
        ELSE /\ picks' = [n \in Peers |-> IF n = tgt THEN picks[n] + 1 ELSE picks[n]]
-            /\ UNCHANGED <<missed, stable, full>>
+            /\ UNCHANGED <<missed, stable, full, flap>>
     /\ UNCHANGED churn
 
 \* a member dies (stays in the list until the next wrap)
 Die(n) == /\ churn < MaxChurn /\ n \in Live(order)
           /\ order' = [i \in DOMAIN order |-> IF order[i].name = n THEN [order[i] EXCEPT !.live = FALSE] ELSE order[i]]
-          /\ stable' = FALSE /\ churn' = churn + 1
+          /\ stable' = FALSE /\ churn' = churn + 1 /\ flap' = flap \cup {n}
           /\ wrapNow' = FALSE /\ UNCHANGED <<idx, picks, full, missed, last>>
 
 \* a new (or reaped and returning) member is appended and swapped with the entry at a random offset
@@ -87,13 +92,13 @@ Insert(n, off) == /\ churn < MaxChurn /\ n \in Peers \ Names(order) /\ off \in 0
                   /\ LET o1 == Append(order, [name |-> n, live |-> TRUE])
                          k  == Len(o1) IN
                      order' = [i \in DOMAIN o1 |-> IF i = off + 1 THEN o1[k] ELSE IF i = k THEN o1[off + 1] ELSE o1[i]]
-                  /\ stable' = FALSE /\ churn' = churn + 1
+                  /\ stable' = FALSE /\ churn' = churn + 1 /\ flap' = flap \cup {n}
                   /\ wrapNow' = FALSE /\ UNCHANGED <<idx, picks, full, missed, last>>
 
 \* a dead member that is still in the list comes back
 Revive(n) == /\ churn < MaxChurn /\ \E i \in DOMAIN order : order[i].name = n /\ ~order[i].live
              /\ order' = [i \in DOMAIN order |-> IF order[i].name = n THEN [order[i] EXCEPT !.live = TRUE] ELSE order[i]]
-             /\ stable' = FALSE /\ churn' = churn + 1
+             /\ stable' = FALSE /\ churn' = churn + 1 /\ flap' = flap \cup {n}
              /\ wrapNow' = FALSE /\ UNCHANGED <<idx, picks, full, missed, last>>
 
 Next == Tick \/ (\E n \in Peers : Die(n) \/ Revive(n) \/ \E off \in 0..Cardinality(Peers) : Insert(n, off))
@@ -104,5 +109,7 @@ C03_PickIsLive   == [][Tick => (last' = "" \/ \E i \in DOMAIN order' : order'[i]
 \* at a wrap that closes a complete pass with unchanged membership every live peer was probed exactly once
 C03_Pass == [][ (wrapNow' /\ full /\ stable) => \A n \in Live(order) : picks[n] = 1 ]_pvars
 C03_PassInv == (full /\ stable) => \A n \in Live(order) : picks[n] <= 1
+\* a peer that was live (and present) during the whole pass that a wrap closes was probed in it
+C03_Steady == [][ (wrapNow' /\ full) => \A n \in Live(order) \ flap : picks[n] >= 1 ]_pvars
 C03_TwoPass == \A n \in Peers : missed[n] <= 1
 =============================================================================
